@@ -1,4 +1,94 @@
-(* C06 — placeholder while the theorems are being written *)
-From Cog Require Import Model.Spec06 Gen.Chains_gen.
-Theorem chain_typescript_is : chain_typescript = [PRenameNumericEnumValues].
-Proof. reflexivity. Qed.
+(* C06 — each language's generators receive types in the normal form they assume.
+   Statements only; proofs in Proofs/C06Proofs.v; Print Assumptions under each.
+   chain_<lang> (Gen/Chains_gen.v) is regenerated from internal/jennies/*/jennies.go on every run;
+   NF predicates: Model/NF.v; pass models: Model/PassesChain.v (validated by correspondence). *)
+From Coq Require Import List String Bool.
+From Cog Require Import Model.IR Model.Passes Model.PassesChain Model.Process Model.NF Model.Spec06
+     Gen.Chains_gen Proofs.C06Proofs.
+Import ListNotations.
+Local Open Scope string_scope.
+
+(* obligations over the regenerated chains: only passes that have a model; a pass added to, or an
+   unrecognised construct in, CompilerPasses() shows up as PUnknown and breaks these *)
+Theorem chains_modelled :
+  forallb modelled chain_go && forallb modelled chain_java && forallb modelled chain_php &&
+  forallb modelled chain_python && forallb modelled chain_typescript = true.
+Proof. vm_compute. reflexivity. Qed.
+Print Assumptions chains_modelled.
+
+(* every chain that promises "non-required fields are nullable" runs the pass that establishes it,
+   and the TypeScript/Python chains end with the pass that removes numeric member names *)
+Theorem chains_have_their_establishing_pass :
+  forallb (fun ch => existsb (fun p => match p with PNotRequiredFieldAsNullableType => true | _ => false end) ch)
+          [chain_go; chain_java; chain_php; chain_python] &&
+  forallb (fun ch => match last ch PUnspec with PRenameNumericEnumValues => true | _ => false end)
+          [chain_python; chain_typescript] = true.
+Proof. vm_compute. reflexivity. Qed.
+Print Assumptions chains_have_their_establishing_pass.
+
+(* For ALL IRs, arbitrarily nested: right after NotRequiredFieldAsNullableType every non-required
+   field — in objects, arrays, map index/value types, union and allOf branches — is nullable. *)
+Theorem not_required_establishes_optional_nullable : forall ss,
+  has_optional_not_nullable (not_required_field_as_nullable_type ss) = false.
+Proof. exact not_required_establishes_optional_nullable_proof. Qed.
+Print Assumptions not_required_establishes_optional_nullable.
+
+(* For ALL IRs: after RenameNumericEnumValues no enum object has a purely numeric member name
+   (names_fit: the name's digits fit the int range strconv.Atoi accepts). *)
+Theorem rename_numeric_establishes : forall ss,
+  names_fit ss -> numeric_member (rename_numeric_enum_values ss) = false.
+Proof. exact rename_numeric_establishes_proof. Qed.
+Print Assumptions rename_numeric_establishes.
+
+(* hence the TypeScript normal form, for all IRs *)
+Theorem nf_typescript_partial : forall ss out,
+  names_fit ss -> process chain_typescript ss = Ok out -> nf_violations "typescript" out = [].
+Proof.
+  intros ss out Hfit H. unfold chain_typescript in H. cbn [process run_pass bind] in H.
+  inversion H; subst. unfold nf_violations. simpl.
+  rewrite (rename_numeric_establishes ss Hfit). reflexivity.
+Qed.
+Print Assumptions nf_typescript_partial.
+
+(* ---- the full statements for Go, Java, PHP and Python are REFUTED by the faithful model: the
+   later passes of the chains undo or never reach what the earlier ones established (open known
+   findings with ids starting C06).  Witnesses by vm_compute. ---- *)
+Definition m0 := {| m_kind := "" ; m_variant := "" ; m_identifier := "" |}.
+Definition Sc (k : skind) := TScalar A0 k DNil [].
+(* string | [](int64 | bool) *)
+Definition w_nested : schemas :=
+  [mkSchema "p" m0 "" ty_zero
+    [("Obj", mkObject "Obj" [] (TStruct A0 [] [mkField "u" [] (TDisj A0 (mkDisj [Sc KString; TArray A0 (TDisj A0 (mkDisj [Sc KInt64; Sc KBool] "" []))] "" [])) true]) "p" "Obj")]].
+(* an optional undiscriminated union of struct references, and string | (int64 | null) *)
+Definition w_opt : schemas :=
+  [mkSchema "p" m0 "" ty_zero
+    [("A", mkObject "A" [] (TStruct A0 [] [mkField "x" [] (Sc KString) true]) "p" "A");
+     ("B", mkObject "B" [] (TStruct A0 [] [mkField "y" [] (Sc KString) true]) "p" "B");
+     ("Obj", mkObject "Obj" [] (TStruct A0 [] [mkField "u" [] (TDisj A0 (mkDisj [TRef A0 "p" "A"; TRef A0 "p" "B"] "" [])) false;
+                                               mkField "n" [] (TDisj A0 (mkDisj [Sc KString; TDisj A0 (mkDisj [Sc KInt64; Sc KNull] "" [])] "" [])) true]) "p" "Obj")]].
+Definition chain_breaks (lang : string) (ch : list pass) (w : schemas) (v : string) : Prop :=
+  exists out, process ch w = Ok out /\ In v (nf_violations lang out).
+
+Theorem nf_go_refuted : chain_breaks "go" chain_go w_nested "union-remains" /\
+                        chain_breaks "go" chain_go w_opt "optional-field-not-nullable" /\
+                        chain_breaks "go" chain_go w_opt "T-or-null-union".
+Proof. repeat split; eexists; (split; [vm_compute; reflexivity|vm_compute; tauto]). Qed.
+Print Assumptions nf_go_refuted.
+Theorem nf_java_refuted : chain_breaks "java" chain_java w_nested "union-remains" /\
+                          chain_breaks "java" chain_java w_opt "optional-field-not-nullable".
+Proof. repeat split; eexists; (split; [vm_compute; reflexivity|vm_compute; tauto]). Qed.
+Print Assumptions nf_java_refuted.
+Theorem nf_php_refuted : chain_breaks "php" chain_php w_opt "optional-field-not-nullable" /\
+                         chain_breaks "php" chain_php w_opt "T-or-null-union".
+Proof. repeat split; eexists; (split; [vm_compute; reflexivity|vm_compute; tauto]). Qed.
+Print Assumptions nf_php_refuted.
+Theorem nf_python_refuted : chain_breaks "python" chain_python w_opt "T-or-null-union".
+Proof. eexists; (split; [vm_compute; reflexivity|vm_compute; tauto]). Qed.
+Print Assumptions nf_python_refuted.
+
+(* non-vacuity: the establishing pass really changes something, and a chain can succeed cleanly *)
+Example c06_nonvacuous :
+  has_optional_not_nullable w_opt = true /\
+  has_optional_not_nullable (not_required_field_as_nullable_type w_opt) = false /\
+  (exists out, process chain_python w_nested = Ok out /\ nf_violations "python" out = []).
+Proof. split; [reflexivity|]. split; [reflexivity|]. eexists. split; vm_compute; reflexivity. Qed.
